@@ -436,7 +436,7 @@ def execute(scenario, tape=None, keep_events=False):
         b = made[-1][2] if len(made) > 1 else (a * 7 + 3) % N or 1
         A, B = EC.mul(a), EC.mul(b)
         beta = 0x7AE96A2B657C07106E64479EAC3434E99CF0497512F58995C1396C28719501EE
-        pairs = [("A+B", A, B), ("A+A", A, A), ("A+(-A)", A, EC.neg(A)), ("O+A", None, A), ("A+endo(-A)", A, (beta * A[0] % EC.P, (-A[1]) % EC.P)), ("A+endo2(-A)", A, (beta * beta * A[0] % EC.P, (-A[1]) % EC.P))]
+        pairs = [("A+B", A, B), ("A+A", A, A), ("A+(-A)", A, EC.neg(A)), ("O+A", None, A), ("A+endo(-A)", A, (beta * A[0] % EC.P, (-A[1]) % EC.P)), ("A+endo2(-A)", A, (beta * beta * A[0] % EC.P, (-A[1]) % EC.P)), ("A+endo(A)", A, (beta * A[0] % EC.P, A[1])), ("endo2(A)+A", (beta * beta * A[0] % EC.P, A[1]), A)]
         for name, p1, p2 in pairs:
             try:
                 got = ecmath.point_add(p1, p2)
@@ -447,7 +447,9 @@ def execute(scenario, tape=None, keep_events=False):
             except Exception as e:
                 viols.append(Violation("group-law", f"point_add {name} raised", f"{type(e).__name__}: {e}"[:200], {"via": "algebra"}))
         scalars = [0, 1, 2, N - 1, N, N + 1, N + 2, 2 * (N + 2) + 1, 3 * N + 2, 2**256 - 1, 2**256, 2**256 + 1, a + N, a * b, arng.getrandbits(300)]
-        for k in arng.sample(scalars, 4):
+        # prefixes that are multiples of n (the running sum passes through the identity), and a small multiple of G
+        scalars += [2 * N, 2 * N + 1, 4 * N + 3, (N << 40) + 12345, (a % 1000) + 3]
+        for k in arng.sample(scalars, 5):
             base = arng.choice([("G", G), ("B", B)])
             try:
                 got = ecmath.point_scalar_mul(k, base[1])
